@@ -31,7 +31,8 @@ call (`default_factory`); `PduHolder.pdu = x` stores `x`; decoders return all-fr
 The variants `…Shared` describe the code before 840b2f2 / b7949db and exist only so that the
 separation theorems are visibly not vacuous.
 
-Not modelled here: caches (`_crc16`, the filestore TLV cache — `Model/Mutation.lean`), the values of the
+Not modelled here: the VALUE of the `_crc16` cache (only whether it is `None`, because `to_space_packet()` assigns it),
+the filestore TLV cache (`Model/Mutation.lean`), the values of the
 length fields (`Model/Mutation.lean`; a length scalar here only says *that* a setter rewrites it), objects
 that are unreachable when the call returns (the `empty()` instance whose attributes a factory overwrites).
 -/
@@ -200,17 +201,19 @@ def deepCopyHeader (h : Addr) : H Addr := do
 /-- `PusTcDataFieldHeader(...)` — scalars `[service, subservice, source_id, ack_flags]` -/
 def newTcSec (svc sub src ack : Nat) : H Addr := new ⟨.tcSec, [], [svc, sub, src, ack]⟩
 
-/-- `PusTc(...)`: refs `[sp_header, pus_tc_sec_header]`, scalars `[len(app_data)]` -/
+/-- `PusTc(...)`: refs `[sp_header, pus_tc_sec_header]`, scalars `[len(app_data), crc16 cache]` — the cache scalar is
+    `0` for `None` and `1` for "holds the two CRC octets computed by the last `calc_crc()` / `pack()` / `unpack()`" (the
+    octets themselves are not modelled: re-computing over changed fields is not visible as a write here) -/
 def newPusTc (svc sub apid count src ack dataLen : Nat) : H Addr := do
   let sec ← newTcSec svc sub src ack
   let hdr ← newSpHeader 1 apid count (5 + dataLen + 1) 1 3 0
-  new ⟨.pusTc, [some hdr, some sec], [dataLen]⟩
+  new ⟨.pusTc, [some hdr, some sec], [dataLen, 0]⟩
 
-/-- `PusTc.unpack(raw)`: everything new -/
+/-- `PusTc.unpack(raw)`: everything new (the CRC cache holds the trailer read) -/
 def unpackTc (svc sub apid count src ack dataLen : Nat) : H Addr := do
   let hdr ← newSpHeader 1 apid count (5 + dataLen + 1) 1 3 0
   let sec ← newTcSec svc sub src ack
-  new ⟨.pusTc, [some hdr, some sec], [dataLen]⟩
+  new ⟨.pusTc, [some hdr, some sec], [dataLen, 1]⟩
 
 /-- `PusTc.from_sp_header(sp_header, service, subservice, app_data)`: the caller's header is ADOPTED and
     MODIFIED (packet type, secondary header flag, data length) -/
@@ -220,26 +223,32 @@ def tcFromSpHeader (hdr : Addr) (svc sub src ack dataLen : Nat) : H Addr := do
   setScal pid 1 1
   setScal hdr 1 (5 + dataLen + 1)
   let sec ← newTcSec svc sub src ack
-  new ⟨.pusTc, [some hdr, some sec], [dataLen]⟩
+  new ⟨.pusTc, [some hdr, some sec], [dataLen, 0]⟩
 
 /-- `PusTc.from_composite_fields(sp_header, sec_header, app_data)`: both objects adopted, `ValueError` for a TM header -/
 def tcFromCompositeFields (hdr sec : Addr) (dataLen : Nat) : H Addr := do
   let pid ← ref hdr 0
   let pt ← scalAt pid 0
   if pt = 0 then fail else
-  new ⟨.pusTc, [some hdr, some sec], [dataLen]⟩
+  new ⟨.pusTc, [some hdr, some sec], [dataLen, 0]⟩
 
-/-- `PusTc.to_space_packet()` since b7949db: `SpacePacket(copy.deepcopy(self.sp_header), …)` -/
+/-- `PusTc.to_space_packet()` since b7949db: `self.calc_crc()` — an assignment to the packet's own PUBLIC `crc16`
+    cache — then `SpacePacket(copy.deepcopy(self.sp_header), …)` -/
 def tcToSpacePacket (tc : Addr) : H Addr := do
   let hdr ← ref tc 0
   let n ← scalAt tc 0
+  setScal tc 1 1
   let hdr' ← deepCopyHeader hdr
   new ⟨.spacePacket, [some hdr'], [5, n + 2]⟩
+
+/-- `tc.pack()` / `tc.calc_crc()` as far as the object graph is concerned: the packet's own `crc16` cache is assigned -/
+def tcPack (tc : Addr) : H Unit := setScal tc 1 1
 
 /-- before b7949db: `SpacePacket(self.sp_header, …)` -/
 def tcToSpacePacketShared (tc : Addr) : H Addr := do
   let hdr ← ref tc 0
   let n ← scalAt tc 0
+  setScal tc 1 1
   new ⟨.spacePacket, [some hdr], [5, n + 2]⟩
 
 /-- the documented setters of a telecommand -/
@@ -268,15 +277,17 @@ def tcSet (tc : Addr) : TcOp → H Unit
     setScal tc 0 n
     setScal h 1 (5 + n + 1)
 
-/-- `PusTm(...)`: refs `[space_packet_header, pus_tm_sec_header]`, scalars `[len(source_data)]` -/
+/-- `PusTm(...)`: refs `[space_packet_header, pus_tm_sec_header]`, scalars `[len(source_data), crc16 cache]` -/
 def newPusTm (svc sub apid count tsLen dataLen : Nat) : H Addr := do
   let hdr ← newSpHeader 0 apid count (7 + tsLen + dataLen + 1) 1 3 0
   let sec ← new ⟨.tmSec, [], [svc, sub, 0, 0, 0, tsLen]⟩
-  new ⟨.pusTm, [some hdr, some sec], [dataLen]⟩
+  new ⟨.pusTm, [some hdr, some sec], [dataLen, 0]⟩
 
+/-- `PusTm.to_space_packet()`: `calc_crc()` (the packet's own `crc16` cache), then a deep copy of the header -/
 def tmToSpacePacket (tm : Addr) : H Addr := do
   let hdr ← ref tm 0
   let n ← scalAt tm 0
+  setScal tm 1 1
   let hdr' ← deepCopyHeader hdr
   new ⟨.spacePacket, [some hdr'], [7, n + 2]⟩
 
@@ -339,6 +350,16 @@ def service1FromTc (tc : Addr) (apid sub tsLen : Nat) : H Addr := do
   let vp ← new ⟨.verifParams, [some rid, none, none], []⟩
   let tm ← newPusTm 1 sub apid 0 tsLen 4
   new ⟨.service1Tm, [some vp, some tm], []⟩
+
+/-- `Service1Tm(apid, subservice, timestamp, verif_params=params)`: the report KEEPS the caller's `VerificationParams`
+    object (`self._verif_params = verif_params`); the `PusTm` inside is new -/
+def newService1Tm (params : Addr) (apid sub tsLen : Nat) : H Addr := do
+  let _ ← cellAt params
+  let tm ← newPusTm 1 sub apid 0 tsLen 4
+  new ⟨.service1Tm, [some params, some tm], []⟩
+
+/-- `VerificationParams(req_id)` (a dataclass: the given request ID is stored) -/
+def newVerifParams (rid : Addr) : H Addr := new ⟨.verifParams, [some rid, none, none], []⟩
 
 /-- `PusVerificator()` — refs: the keys and status records of the dictionary, alternating -/
 def newVerificator : H Addr := new ⟨.verificator, [], []⟩
@@ -648,6 +669,8 @@ def attr : Tag → String → Option (List Nat)
   | .finishedPdu, "fault_location" => some [1, 1]
   | .metadataPdu, "params" => some [1]
   | .metadataPdu, "options" => some [2]
+  | .verifParams, "req_id" => some [0]
+  | .pyList, name => name.toNat?.map fun i => [i]      -- `lst[i]`, written as the path segment `i`
   | t, name =>
     -- the seven file-directive PDU classes: `pdu_file_directive`, and what they forward to it
     if t = .ackPdu ∨ t = .promptPdu ∨ t = .keepAlivePdu ∨ t = .nakPdu ∨ t = .eofPdu ∨ t = .finishedPdu ∨ t = .metadataPdu then
